@@ -480,6 +480,8 @@ def run(cx, rep):
     local_type_before_import_rule(cx, rep, "C09.14")
     # ---------------------------------------------------------------- C09.16
     explicit_before_star_rule(cx, rep, "C09.16")
+    # ---------------------------------------------------------------- C09.17
+    star_shadowing_rule(cx, rep, "C09.17")
     # ---------------------------------------------------------------- C09.15
     rep.rule("C09.15", "an answer of the host (module resolution, file lookup) is remembered under a key that carries every argument of the query")
     hits = memo_key_hits(cx.rs)
@@ -1091,3 +1093,40 @@ def explicit_before_star_rule(cx, rep, rid):
                    g, "s" if len(late) > 1 else "", ", ".join(sorted({self_field(x["recv"])["name"] for x in late}))),
                "%s:%s" % (f.file, late[0].get("line") if late else f.line), sample={"fn": g, "own_lookups": len(own), "after_the_star_walk": len(late)})
     rep.floor(rid, "export lookups that walk the star targets", n, 2)
+
+
+# ---------------------------------------------------------------------------------------------------- C09.17
+def star_shadowing_rule(cx, rep, rid):
+    """A name a module exports itself hides the same name coming in through `export *` - whether the module declares
+    it (named_values / named_types) or re-exports it by name (`export { x } from "./a"`, kept in named_unknown until
+    its kind is known).  Wherever the members of the star targets are COLLECTED (a loop over the module's star list
+    whose body tests the module's own tables to decide whether a star member is hidden), the test consults the table
+    of named re-exports as well; a test that looks at the declared names only lets `export * from "./b"` override
+    `export { x } from "./a"` in the namespace object."""
+    F = cx.rs
+    from facts import walk as hwalk
+    rep.rule(rid, "a member brought in by `export *` is hidden by every own export of the module, named re-exports included")
+    n = 0
+    for g, t in sorted(F.hir.items()):
+        f = F.fns.get(g)
+        if f is None or f.crate == "beff_wasm":
+            continue
+        for lp in hwalk(t["body"]):
+            if not (lp["k"] == "Match" and lp.get("src") == "ForLoopDesugar" and lp["scrut"].get("args")):
+                continue
+            it = lp["scrut"]["args"][0]
+            if not any(y["k"] == "Field" and y.get("name") == "extends" and (y.get("adt") or "").endswith("SymbolsExportsModule") for y in hwalk(it)):
+                continue
+            tests = {}
+            for y in hwalk(lp):
+                if y["k"] == "MethodCall" and y.get("method") in ("contains_key", "get") and y is not lp:
+                    for z in hwalk(y["recv"]):
+                        if z["k"] == "Field" and (z.get("adt") or "").endswith("SymbolsExportsModule") and z.get("name", "").startswith("named_"):
+                            tests[z["name"]] = y
+            if not tests:
+                continue
+            n += 1
+            rep.ob(rid, "%s/own-exports-hide-star-members" % g.rsplit("::", 1)[-1], "named_unknown" in tests,
+                   "%s collects the members of the `export *` targets and hides those the module exports itself by looking at %s only: a name the module re-exports explicitly (`export { x } from \"./a\"`, table named_unknown) is overridden by the `x` of a star target" % (g, ", ".join(sorted(tests))),
+                   "%s:%s" % (f.file, lp.get("line")), sample={"fn": g, "tables_consulted": sorted(tests)})
+    rep.ob(rid, "scan", True, sample={"collecting_star_walks": n})
